@@ -37,12 +37,15 @@ Bases == << [tpl |-> "intRange",     slots |-> << <<"lb", "int">>, <<"ub", "int"
 
 \* rival: Main imports from Lib as in sibName, and a second importer (Rival) imports the SAME names from RivalLib, where they
 \* have other values: what a name means in one module must not leak into another one resolved in the same run
-Placements == {"same", "sibName", "sibOid", "decoy", "rival"}
+\* kinShort / kinLong: as sibOid, and another loaded module with ANOTHER name defines the same names with other values under an
+\* object identifier that is a strict prefix (kinShort) / a strict extension (kinLong) of the imported one
+Placements == {"same", "sibName", "sibOid", "decoy", "rival", "kinShort", "kinLong"}
 \* unimported: the sibling defines the names but Main has no IMPORTS clause for them
 Negatives == {"missing", "wrongKind", "negSize", "unimported"}
 
 \* the module list of a placement and all its load orders
 Mods(p) == IF p = "same" THEN <<"Main">> ELSE IF p = "decoy" THEN <<"Main", "Lib", "Decoy">>
+           ELSE IF p \in {"kinShort", "kinLong"} THEN <<"Main", "Lib", "Kin">>
            ELSE IF p = "rival" THEN <<"Main", "Lib", "Rival", "RivalLib">> ELSE <<"Main", "Lib">>
 Perms(s) == {f \in [1..Len(s) -> 1..Len(s)] : \A i, j \in 1..Len(s) : i # j => f[i] # f[j]}
 Orders(p) == {[i \in 1..Len(Mods(p)) |-> Mods(p)[f[i]]] : f \in Perms(Mods(p))}
@@ -70,7 +73,7 @@ Next ==
      \/ \E s \in SlotNames(c.b), ord \in Orders(c.placement), neg \in Negatives :
            /\ (neg = "negSize" => Bases[c.b].slots[KindOf(c.b, s)][2] = "size")
            /\ (neg = "wrongKind" => Bases[c.b].slots[KindOf(c.b, s)][2] \in {"int", "size"})
-           /\ c.placement # "decoy"
+           /\ c.placement \notin {"decoy", "kinShort", "kinLong"}
            /\ (neg = "unimported" => c.placement \in {"sibName", "rival"})
            /\ (c.placement = "rival" => neg \in {"missing", "unimported"})
            /\ c' = Case(c.b, {s}, c.placement, ord, neg)
